@@ -137,8 +137,10 @@ func Discharge(vcs []*VC, extra func(*VC) []*smt.Term, o DischargeOpts) []Verdic
 			}
 			// kernel-lemma abstraction first; a model found under it is confirmed on the exact query
 			abs, nAbs := smt.AbstractKernels(as, true)
+			abs = smt.SimplifyIntFloat(abs)
+			exact := smt.SimplifyIntFloat(as)
 			var a smt.Answer
-			final := as
+			final := exact
 			if nAbs > 0 {
 				final = abs
 				v.Abstracted = nAbs
@@ -148,16 +150,16 @@ func Discharge(vcs []*VC, extra func(*VC) []*smt.Term, o DischargeOpts) []Verdic
 					if os.Getenv("FGSYM_DEBUG") != "" {
 						fmt.Fprintf(os.Stderr, "  abstraction of %s/%s (%d kernels) answered %s in %.1fs (%s); asking the exact query\n", vc.Harness, vc.Label, nAbs, a.Res, a.Seconds, a.File)
 					}
-					be, to = pickBackend(o, as)
-					b := solvePortfolio(be, as, gets, to, o)
+					be, to = pickBackend(o, exact)
+					b := solvePortfolio(be, exact, gets, to, o)
 					b.Seconds += a.Seconds
 					a = b
 					v.Abstracted = 0
-					final = as
+					final = exact
 				}
 			} else {
-				be, to := pickBackend(o, as)
-				a = solvePortfolio(be, as, gets, to, o)
+				be, to := pickBackend(o, exact)
+				a = solvePortfolio(be, exact, gets, to, o)
 			}
 			v.Res, v.Solver, v.Seconds, v.File = a.Res, a.Solver, a.Seconds, a.File
 			if a.Res == smt.Error {
@@ -247,7 +249,7 @@ func SolvePath(p PathEnd, o DischargeOpts, allowExact bool) (smt.Result, map[str
 		block := []*smt.Term{}
 		for attempt := 0; attempt < 3; attempt++ {
 			be, to := pickBackend(o, abs)
-			a := solvePortfolio(be, append(append([]*smt.Term(nil), abs...), block...), p.Nondets, to, o)
+			a := solvePortfolio(be, smt.SimplifyIntFloat(append(append([]*smt.Term(nil), abs...), block...)), p.Nondets, to, o)
 			if os.Getenv("FGSYM_DEBUG") != "" {
 				fmt.Fprintf(os.Stderr, "  witness: abstract query %s in %.1fs\n", a.Res, a.Seconds)
 			}
@@ -328,6 +330,7 @@ func GuessInputs(p PathEnd, o DischargeOpts) (map[string]*smt.Term, bool) {
 	if abs, n := smt.AbstractKernels(as, false); n > 0 {
 		q = abs
 	}
+	q = smt.SimplifyIntFloat(q)
 	be, to := pickBackend(o, q)
 	a := solvePortfolio(be, q, p.Nondets, to, o)
 	if a.Res != smt.Sat {
